@@ -160,6 +160,17 @@ def gen(tier):
             yield {'k': 'pair', 'a': "%s('%s')" % (fn, v), 'b': "%s('%s')" % (fn, i), 'fn': 'valid-then-impossible-date'}
             yield {'k': 'pair', 'a': "%s('%s')" % (fn, i), 'b': "%s('%s')" % (fn, v), 'fn': 'valid-then-impossible-date'}
             yield {'k': 'lit', 'expr': "%s('%s')" % (fn, i), 'exp': '', 'cmp': 'eq', 'fn': 'impossible-date'}
+    # digits that merely follow a complete date are no time of day (a name like `2024-02-29 1080p.mkv`)
+    for d, tail in (('2024-02-29', ' 1080p.mkv'), ('2024-02-29', ' 99 Luftballons.mp3'), ('2024-12-31', ' 1080p'), ('2024-12-31', ' 60 fps'), ('2021-03-04', ' 3 cats.jpg'),
+                    ('2021-03-04', '_2500x1200.png'), ('2020-02-29', ' 7777'), ('2023-01-07', ' 25 pages'), ('2022-10-02', ' v2.61'), ('2021-04-30', ' 12 angry men')):
+        t = dt.datetime.strptime(d, '%Y-%m-%d')
+        for fn, exp in (('year', t.year), ('month', t.month), ('day', t.day), ('dow', (t.weekday() + 1) % 7 + 1)):
+            yield {'k': 'lit', 'expr': "%s('%s%s')" % (fn, d, tail), 'exp': float(exp), 'cmp': 'num', 'fn': 'date-then-digits'}
+            yield {'k': 'lit', 'expr': "%s('shot %s%s')" % (fn, d, tail), 'exp': float(exp), 'cmp': 'num', 'fn': 'date-then-digits'}
+    # a length beyond the machine word is still a length (the rest of the string)
+    for ln in ('18446744073709551615', '18446744073709551616', '99999999999999999999', '340282366920938463463374607431768211456'):
+        for s, pos in (('abcdef', 2), ('abcdef', -3), ('abcdef', 1), ('é中x', 2)):
+            yield {'k': 'lit', 'expr': 'substr(%s, %d, %s)' % (q(s), pos, ln), 'exp': substr(s, pos), 'cmp': 'eq', 'fn': 'substr-huge-length'}
     # a bare number is no date
     for e in ("year(12345)", "year('12345')", "year('10.75')", "month(123456)", "day('2024')"):
         yield {'k': 'lit', 'expr': e, 'exp': '', 'cmp': 'eq', 'fn': 'number-is-no-date'}
